@@ -17,7 +17,7 @@ RULE = ("files = interleavings of directive/comment/blank/feature lines: all seq
         "inspection window) or a FASTA section is present; distinct by (file text, checklines, input form)")
 REQUIRED = ["pairs of iterators with overlapping lifetimes", "DataIterator.directives compared", "db.directives compared", "reopened directives compared",
             "directives beyond the window observed", "files with FASTA section", "directives compared after update + delete + reopen", "files with bare CR line ends",
-            "db.directives compared after the caller's own iterator started another pass"]
+            "db.directives compared after the caller's own iterator started another pass", "multi-member gzip files"]
 ASSUMPTIONS = [
     "the FASTA section starts at a line that is exactly '##FASTA' or begins with '>'",
     "blank lines are truly empty (whitespace-only lines are not generated)",
@@ -57,7 +57,9 @@ def build(kinds, fasta=None):
                           # text that merely begins like the FASTA marker
                           "##FASTA-source genome%d.fa.gz" % i, "##FASTAfile %d" % i,
                           # the marker is '##FASTA' exactly: other letter cases are ordinary directives
-                          "##fasta", "##Fasta"][(i + len(kinds)) % 14])
+                          "##fasta", "##Fasta",
+                          # version directives of every shape are directives, kept as written
+                          "##gff-version 3.1.26", "##gff-version", "##gff-version-note see docs", "##gff-version   3"][(i + len(kinds)) % 18])
         elif k == "C":
             # comment shapes: ordinary, '#!' pragma-style, bare '#', '# ##'
             lines.append(["#comment %d\twith\ttabs ##not-a-directive" % i, "#!genome-build GRCh%d" % i, "#", "# ## not a directive",
@@ -85,7 +87,11 @@ def execute(ctx, case):
     from gffutils.iterators import DataIterator
 
     if case["kind"] == "overlapping":
-        return overlapping(ctx, case)
+        try:
+            return overlapping(ctx, case)
+        except Exception as ex:
+            ctx.violation(case, {"why": "two DataIterators with overlapping lifetimes: iteration raised %r" % (ex,)})
+            return
     lines = case["lines"]
     ck = case["checklines"]
     eol = case.get("eol", "\n")
@@ -107,8 +113,18 @@ def execute(ctx, case):
     elif case["input"] == "gz":
         import gzip
         src = ctx.tmp(".gff.gz")
-        with gzip.open(src, "wb") as fh:
-            fh.write(text.encode("utf-8"))
+        raw = text.encode("utf-8")
+        cut = raw.find(b"\n", len(raw) // 3) + 1
+        if 0 < cut < len(raw) and len(raw) % 2 == 0:
+            # a multi-member gzip file (bgzip output, cat a.gz b.gz): later members hold directives and features too
+            with gzip.open(src, "wb") as fh:
+                fh.write(raw[:cut])
+            with gzip.open(src, "ab") as fh:
+                fh.write(raw[cut:])
+            ctx.mon("multi-member gzip files")
+        else:
+            with gzip.open(src, "wb") as fh:
+                fh.write(raw)
         data, fs = src, False
     else:
         data, fs = text, True
